@@ -267,7 +267,7 @@ pub fn run(ctx: &Ctx) {
     ctx.enumerate("special_inputs", sp.len() as u64, false, |i| sp[i as usize].clone(), |c| special(c, pool));
 
     // (b) random structure-aware and raw mutations
-    let cases = ctx.tier.pick(60_000u32, 1_500_000u32);
+    let cases = ctx.tier.pick(150_000u32, 2_000_000u32);
     ctx.random("mutations", &wire::mut_case, cases, Opts { shrink_iters: 300, ..Opts::default() }, |c: &MutCase| {
         let (h, t, class, changed) = wire::materialise(pool, c);
         match total(h, &t.msg, &t.sig, &t.pk) {
@@ -276,7 +276,7 @@ pub fn run(ctx: &Ctx) {
         }
     });
     // raw random bytes with a plausible header
-    let rc = ctx.tier.pick(20_000u32, 400_000u32);
+    let rc = ctx.tier.pick(100_000u32, 1_000_000u32);
     ctx.random(
         "random_with_header",
         &|| {
